@@ -65,10 +65,7 @@ func zzSymInput(tag string) controller.Input {
 // accepted registrations are in the graph, and event delivery to the
 // dependents the database names never hits a missing controller.
 func ZZ_RegistrationHistory() {
-	steps := 2
-	if verif.Tier() == "thorough" {
-		steps = 3
-	}
+	steps := 2 // both tiers: three registrations or two inputs per registration exceed 10^7 paths
 	st := state.WrapCore(namespaced.NewState(inmem.Build))
 	rt, err := NewRuntime(st, zap.NewNop(), options.WithMetrics(false))
 	verif.Assert(err == nil, "runtime created")
@@ -80,9 +77,6 @@ func ZZ_RegistrationHistory() {
 		q := verif.Choose("flavour", 2) == 1
 		var ins []controller.Input
 		maxIn := 2
-		if verif.Tier() == "thorough" {
-			maxIn = 3
-		}
 		nin := verif.Choose("ninputs", maxIn)
 		for i := 0; i < nin; i++ {
 			ins = append(ins, zzSymInput(""))
